@@ -26,18 +26,28 @@ def gen_case(rng):
         "t.toml": {"fmt": "toml", "docs": [{"k": "v", "n": 1.5}]},
         "bad.yaml": {"fmt": "yaml", "docs": [{"need": "$required"}]},
         "broken.json": {"raw": "{not json"},
+        # resolvable files whose evaluation fails with the SAME error classes FileMatch uses for "not a bkl file"
+        "orphan.prod.yaml": {"fmt": "yaml", "docs": [{"o": 1}]},                       # missing parent layer `orphan`
+        "np.yaml": {"fmt": "yaml", "docs": [{"$parent": "nosuchbase", "x": 1}]},       # $parent names no layer
+        "tm.yaml": {"fmt": "yaml", "docs": [{"l": [1, 2]}]},
+        "tm.up.yaml": {"fmt": "yaml", "docs": [{"l": {"k": 1}}]},                      # map over list: invalid type
+        "enc.yaml": {"fmt": "yaml", "docs": [{"e": {"$encode": "join", "$value": {"not": "a list"}}}]},
+        "cyc.yaml": {"fmt": "yaml", "docs": [{"a": "$merge:a"}]},
+        "rep.yaml": {"fmt": "yaml", "docs": [{"$repeat": "two", "a": 1}]},
         "notes.txt": {"raw": "hello\n"},
         "x.ini": {"raw": "[s]\nk=v\n"},
     }
     fileargs = ["a.yaml", "a.b.yaml", "svc.json", "t.toml", "a.b.json", "svc.yaml", "t.json", "a.toml", "./a.b.yaml", "a.b.yml"]
-    failing = ["bad.yaml", "broken.json", "bad.json"]
+    failing = ["bad.yaml", "broken.json", "bad.json", "orphan.prod.yaml", "orphan.prod.json", "np.yaml", "np.toml", "tm.up.yaml", "tm.up.json",
+               "enc.yaml", "enc.json", "cyc.yaml", "rep.yaml"]
+    fileargs += ["tm.yaml", "tm.json"]
     n = rng.randint(0, 8)
     args = []
     for _ in range(n):
         r = rng.random()
         if r < 0.45:
             args.append(rng.choice(WORDS))
-        elif r < 0.92:
+        elif r < 0.85:
             args.append(rng.choice(fileargs))
         else:
             args.append(rng.choice(failing))
